@@ -234,7 +234,7 @@ func cmdQuorum(args []string) int {
 			"samples": samples,
 		},
 		Assumptions: []string{"harness/model/quorum.go states the definition of majority/joint commit index and vote result correctly"}}
-	if err := writeEvidence(fmt.Sprintf("%s/evidence/C12.json", verifDir()), ev); err != nil {
+	if err := writeEvidence(fmt.Sprintf("%s/C12.json", evidenceDir()), ev); err != nil {
 		fmt.Println("cannot write evidence:", err)
 		return 2
 	}
